@@ -26,7 +26,9 @@ theorem only_startStage_claims (c : Cfg) (s : State) (row : Row) (i : Nat) (e : 
   | startStage j r =>
     simp only [hm, hStartStage] at he
     split at he
-    · simp at he
+    · split at he
+      · simp at he
+      · simp at he
     simp only [hStartStageCore] at he
     split at he
     · rename_i hready
